@@ -338,7 +338,9 @@ func (r *c13run) checkTrace() (applies int, files []*sftrace.FileTrace) {
 
 func (r *c13run) checkTraceFile(tracePath string) (applies int, files []*sftrace.FileTrace) {
 	evs := traceEvents(tracePath)
-	r.unitTrace = append(r.unitTrace, sftrace.UnitRewrites(evs, false)...)
+	// a runner can die inside an update without any fault injection (a cancel's SIGINT that arrives before the runner
+	// has installed its signal handler kills it): the streams carry a "crash" marker after each process's last event
+	r.unitTrace = append(r.unitTrace, sftrace.UnitRewrites(evs, true)...)
 	for _, e := range evs {
 		if e.Str("ev") != "sf_apply" {
 			continue
@@ -367,6 +369,7 @@ func (r *c13run) checkTraceFile(tracePath string) (applies int, files []*sftrace
 	}
 	files = sftrace.Split(evs, nil)
 	for _, ft := range files {
+		ft.Events = sftrace.WithCrashes(ft)
 		for _, p := range sftrace.Accept(ft, false) {
 			r.viol("C13:status-file-"+strings.TrimPrefix(p.Sig, "C14:"), fmt.Sprintf("%s: %s", filepath.Base(filepath.Dir(ft.File)), p.What))
 		}
